@@ -743,7 +743,9 @@ func (e *Emitter) emitRawStatement(rawStmt *ast.RawStatement) string {
 	if shouldEmitLineMarkers(e.enableLineMarkers, e.inputFilepath) {
 		lines := strings.Split(rawStmt.Value, "\n")
 		for i, line := range lines {
-			emitLineMarker(&sb, rawStmt.Token.LineNumber+i, e.inputFilepath)
+			// The raw text starts on the line of its opening back quote, which is
+			// not necessarily the line of the 'raw' keyword.
+			emitLineMarker(&sb, rawStmt.ValueToken.LineNumber+i, e.inputFilepath)
 			sb.WriteString(fmt.Sprintf("%s\n", line))
 		}
 	} else {
